@@ -8,7 +8,11 @@ import (
 	"github.com/polynetwork/poly/common/config"
 	"github.com/polynetwork/poly/native/service/utils"
 
+	"verifharness/kit/nat"
 	"verifharness/kit/pk"
+	es "verifharness/synth/ethsynth"
+
+	polyeth "github.com/polynetwork/poly/native/service/header_sync/eth"
 )
 
 func TestSmoke(t *testing.T) {
@@ -46,4 +50,31 @@ func TestSmoke(t *testing.T) {
 		t.Fatal(err)
 	}
 	t.Log(w.ConsensusPubs())
+}
+
+func TestEVMSmoke(t *testing.T) {
+	polyeth.VerifSealBypass = true
+	defer func() { polyeth.VerifSealBypass = false }()
+	for _, kind := range []string{"eth", "bsc"} {
+		rng := rand.New(rand.NewSource(2))
+		w, err := NewWorld(config.NETWORK_ID_MAIN_NET, pk.NewKeys(rng, 4), pk.NewKey(rng))
+		if err != nil {
+			t.Fatal(err)
+		}
+		if err := w.RegisterAndApprove(ChainSpec{ID: 20, Router: utils.ETH_ROUTER}); err != nil {
+			t.Fatal(err)
+		}
+		s := w.NewEVMSource(rng, kind, 13)
+		p := es.RandTxParam(rng, 20)
+		m1 := s.Commit(rng, p)
+		m2 := s.Commit(rng, p)
+		if err := s.Seal(rng, 5); err != nil {
+			t.Fatal(kind, err)
+		}
+		o := w.Do(func() *nat.CallRecord { return s.Import(m1, 0, nil) })
+		t.Log(kind, o.Rec.Ok, o.Rec.Err, o.Touched(), CheckRelease(o, Release{Source: 13, Param: ToParam(p)}))
+		for _, rec := range []*nat.CallRecord{s.Import(m1, 0, nil), s.Import(m1, 1, nil), s.Import(m2, 2, nil)} {
+			t.Log(kind, "replay", rec.Ok, rec.Err)
+		}
+	}
 }
